@@ -378,7 +378,7 @@ func ruleSIB4(w *World, r *Report) {
 
 // ruleGRDpath: FindPath's meeting test and traversePath's recursion guard.
 func ruleGRDpath(w *World, r *Report) {
-	r.Doc("GRD-path", "FindPath tests for a meeting only on the frontier node being expanded (never on a freshly discovered neighbour, which would return a longer-than-shortest path) and bounds its rounds by maxDepth; traversePath recurses with depth+1 and returns beyond its constant cap", 4)
+	r.Doc("GRD-path", "FindPath tests for a meeting only on the frontier node being expanded (never on a freshly discovered neighbour, which would return a longer-than-shortest path) and bounds its rounds by maxDepth; traversePath recurses with depth+1 and returns beyond its constant cap", 3)
 	ruleGRDpathFind(w, r)
 	tp := w.Func("pkg/engine", "Engine.traversePath")
 	if tp == nil {
@@ -436,4 +436,156 @@ func nodeContains(outer ast.Node, inner ast.Node) bool {
 		return !found
 	})
 	return found
+}
+
+// ---------- CDC-10: the graph id codec ----------
+
+// ruleCDC10: graph node ids are stored as <index> + "::" + <node id> (buildGraphID) and taken apart again by
+// extractNodeID. Node ids may themselves contain the separator ("session::alpha"); index names cannot. The parser
+// must therefore cut at the FIRST separator; and floating-point values written into a journal command must be
+// written with the shortest representation that parses back to the same value.
+func ruleCDC10(w *World, r *Report) {
+	r.Doc("CDC-10", "extractNodeID cuts a graph id at the first occurrence of the separator buildGraphID inserts (strings.Cut / SplitN(…, 2) / Index — never LastIndex, Split or a suffix search); every float written into a journal command uses strconv.FormatFloat(…, -1, …), the shortest representation that round-trips", 2)
+	ex := w.Func("pkg/engine", "extractNodeID")
+	bg := w.Func("pkg/engine", "buildGraphID")
+	if ex == nil || bg == nil {
+		r.Und("CDC-10", "anchor:extractNodeID/buildGraphID", "", "anchor lost")
+	} else {
+		fn := w.SSAFunc(ex.Obj)
+		firstOK, bad := false, ""
+		var at token.Pos
+		for _, b := range fn.Blocks {
+			for _, in := range b.Instrs {
+				c, ok := in.(*ssa.Call)
+				if !ok {
+					continue
+				}
+				o := calleeObj(&c.Call)
+				if o == nil || o.Pkg() == nil || o.Pkg().Path() != "strings" {
+					continue
+				}
+				switch o.Name() {
+				case "Cut", "Index", "IndexByte":
+					firstOK = true
+				case "SplitN", "SplitAfterN":
+					if n, ok := constInt(c.Call.Args[2]); ok && n == 2 {
+						firstOK = true
+					} else {
+						bad, at = "strings."+o.Name()+" with a limit other than 2", c.Pos()
+					}
+				case "HasPrefix", "TrimPrefix", "Contains", "TrimSpace":
+				default:
+					bad, at = "strings."+o.Name(), c.Pos()
+				}
+			}
+		}
+		pos := w.Pos(ex.Decl.Pos())
+		if bad != "" {
+			pos = w.Pos(at)
+		}
+		r.Cond(firstOK && bad == "", "CDC-10", "extractNodeID:cuts-at-first-separator", pos, "the id is cut at the first separator", "extractNodeID takes a graph id apart with "+bad+" instead of cutting at the FIRST separator: a node id that itself contains the separator (session::alpha, _profile::…) comes back truncated — forward and reverse views, graph scope, cascade unlink and evolve then address a different node")
+	}
+	// the other half of the codec's assumption: an index name cannot contain the separator. VCreate journals (and
+	// creates) only on the "does not contain it" edge of a test of its name parameter for the separator buildGraphID uses.
+	if vc := w.Func("pkg/engine", "Engine.VCreate"); vc == nil || bg == nil {
+		r.Und("CDC-10", "anchor:Engine.VCreate", "", "anchor lost")
+	} else {
+		sep := ""
+		bfn := w.SSAFunc(bg.Obj)
+		for _, b := range bfn.Blocks {
+			for _, in := range b.Instrs {
+				if bo, ok := in.(*ssa.BinOp); ok && bo.Op == token.ADD {
+					for _, o := range []ssa.Value{bo.X, bo.Y} {
+						if cs, ok := constString(o); ok && cs != "" {
+							sep = cs
+						}
+					}
+				}
+			}
+		}
+		fn := w.SSAFunc(vc.Obj)
+		jw := w.journalObj()
+		isSepTest := func(in ssa.Instruction) bool {
+			c, ok := in.(*ssa.Call)
+			if !ok || !commonIs(&c.Call, "strings", "Contains") || len(c.Call.Args) != 2 {
+				return false
+			}
+			cs, ok := constString(c.Call.Args[1])
+			if !ok || cs != sep || sep == "" {
+				return false
+			}
+			for _, leaf := range valueRoots(c.Call.Args[0]) {
+				if p, ok := leaf.(*ssa.Parameter); ok && p.Parent() == fn {
+					return true
+				}
+			}
+			return false
+		}
+		ok := false
+		var wit []ssa.Instruction
+		if sep != "" && jw != nil && len(findInstrs(fn, isSepTest)) > 0 {
+			ok, wit = mustPassGuard(fn, callsTo(jw), isSepTest, callValue, false, nil)
+		}
+		r.Cond(ok, "CDC-10", "Engine.VCreate:name-without-separator", w.Pos(vc.Decl.Pos()), "an index is journaled and created only if its name does not contain the graph id separator "+fmt.Sprintf("%q", sep), "Engine.VCreate accepts an index name that contains the graph id separator: the graph ids of that index cannot be taken apart again (edges of \"team::docs\" read back as \"docs::<id>\") and collide with those of the index named by the prefix", w.witness(wit)...)
+	}
+	// floats in journal commands
+	fc := w.FuncObj("pkg/persistence", "FormatCommand")
+	n := 0
+	for _, fi := range w.ModuleFuncs() {
+		if relPkg(fi.Obj) != "pkg/engine" {
+			continue
+		}
+		root := w.SSAFunc(fi.Obj)
+		if root == nil {
+			continue
+		}
+		for _, f := range append([]*ssa.Function{root}, closuresOf(root)...) {
+			if fc == nil || len(findInstrs(f, callsTo(fc))) == 0 {
+				continue
+			}
+			k := 0
+			for _, in := range findInstrs(f, func(in ssa.Instruction) bool { return isCallTo(in, "strconv", "FormatFloat") }) {
+				c := in.(*ssa.Call)
+				n++
+				k++
+				prec, ok := constInt(c.Call.Args[2])
+				r.Cond(ok && prec == -1, "CDC-10", fmt.Sprintf("%s:float#%d:shortest-round-trip", shortName(fi.Obj), k), w.Pos(c.Pos()), "FormatFloat with precision -1", shortName(fi.Obj)+" writes a float into a journal command with a fixed number of digits: memory keeps the full value, the log a rounded one — after a restart weights differ, versions that differed only beyond that digit collapse, and an identical re-link is no longer a no-op")
+			}
+		}
+	}
+	if n == 0 {
+		r.Und("CDC-10", "anchor:journal-floats", "", "no strconv.FormatFloat found in a function that builds journal commands")
+	}
+}
+
+// ruleCDC11: hnsw.Duration is written into VCONFIG / MEMORY_CONFIG records as JSON text and parsed back. The writer
+// must not lose anything the reader could have kept: it may format the whole value (Duration.String, the integer
+// nanoseconds), but not a quotient of it.
+func ruleCDC11(w *World, r *Report) {
+	r.Doc("CDC-11", "hnsw.Duration.MarshalJSON writes the whole duration (no division of the value on the way to the text): index configuration journaled in VCONFIG/MEMORY_CONFIG records reads back exactly", 1)
+	fi := w.Func("pkg/core/hnsw", "Duration.MarshalJSON")
+	if fi == nil {
+		r.Und("CDC-11", "anchor:Duration.MarshalJSON", "", "anchor lost")
+		return
+	}
+	fn := w.SSAFunc(fi.Obj)
+	var bad ssa.Instruction
+	for _, b := range fn.Blocks {
+		for _, in := range b.Instrs {
+			if bo, ok := in.(*ssa.BinOp); ok && (bo.Op == token.QUO || bo.Op == token.SHR) {
+				// used on the way to the output (not merely in a test like d%time.Hour == 0)
+				for _, ref := range *bo.Referrers() {
+					if _, isCmp := ref.(*ssa.BinOp); isCmp {
+						continue
+					}
+					bad = in
+				}
+			}
+		}
+	}
+	pos := w.Pos(fi.Decl.Pos())
+	if bad != nil {
+		pos = w.Pos(bad.Pos())
+	}
+	r.Cond(bad == nil, "CDC-11", "Duration.MarshalJSON:whole-value", pos, "the text is produced from the whole value", "Duration.MarshalJSON writes a quotient of the duration (a rounded unit): the in-memory configuration keeps the exact value, the journaled one loses the remainder — after a restart through the log, or a compaction, a 500ms interval is 0 and a 1.5s interval 1s")
 }
